@@ -127,3 +127,60 @@ pub fn state_json(n: usize, s: &State) -> Value {
         "ei":s.emitted_index,"next":next,"match":mtch,"idxok": if idx_ok {1} else {0},
         "kl": s.known_leader.as_ref().map(raw).unwrap_or(-1)})
 }
+
+// ------------------------------------------------------------------------------------------
+// Paxos components (hydro_test::cluster::paxos) that the simulator can run
+// ------------------------------------------------------------------------------------------
+pub mod paxos_parts {
+    use std::collections::HashMap;
+
+    use hydro_lang::live_collections::stream::{ExactlyOnce, NoOrder, TotalOrder};
+    use hydro_lang::location::MemberId;
+    use hydro_lang::prelude::*;
+    use hydro_lang::sim::{SimClusterReceiver, SimClusterSender};
+    use hydro_test::cluster::paxos::{
+        Ballot, LogValue, Proposer, recommit_after_leader_election,
+    };
+
+    /// One p1b answer: (checkpoint, accepted log).
+    pub type P1b = (Option<usize>, HashMap<usize, LogValue<u32>>);
+    /// One election result delivered to the new leader: its ballot number and the quorum's p1bs.
+    pub type Election = (u32, Vec<P1b>);
+
+    /// The REAL `recommit_after_leader_election` on a (1-member) proposer cluster: every input
+    /// element is the complete p1b quorum of one won election, processed in one tick.
+    #[expect(clippy::type_complexity, reason = "sim ports")]
+    pub fn recommit_flow<'a>(
+        proposers: &Cluster<'a, Proposer>,
+        f: usize,
+    ) -> (
+        SimClusterSender<Election, TotalOrder, ExactlyOnce>,
+        SimClusterReceiver<((usize, Ballot), Option<u32>), NoOrder, ExactlyOnce>,
+        SimClusterReceiver<usize, TotalOrder, ExactlyOnce>,
+    ) {
+        let tick = proposers.tick();
+        let (send, input) = proposers.sim_input::<Election, TotalOrder, ExactlyOnce>();
+        let batch = input.batch(
+            &tick,
+            nondet!(/** the harness sends one election per run; a batch holds at most one */),
+        );
+        let p_ballot = batch
+            .clone()
+            .map(q!(|(num, _logs)| Ballot {
+                num,
+                proposer_id: MemberId::from_raw_id(0)
+            }))
+            .first()
+            .unwrap_or(tick.singleton(q!(Ballot {
+                num: 0,
+                proposer_id: MemberId::from_raw_id(0)
+            })));
+        let logs = batch.flat_map_unordered(q!(|(_num, logs)| logs));
+        let (to_commit, max_slot) = recommit_after_leader_election(logs, p_ballot, f);
+        (
+            send,
+            to_commit.all_ticks().sim_cluster_output(),
+            max_slot.into_stream().all_ticks().sim_cluster_output(),
+        )
+    }
+}
